@@ -445,15 +445,23 @@ func (s *MemCachedStore) persist(isSync bool) (int, error) {
 		s.ps = tempstore.ps
 	} else {
 		// We're toast. We'll try to still keep proper state, but OOM
-		// killer will get to us eventually.
-		maps.Copy(tempstore.mem, s.mem)
-		maps.Copy(tempstore.stor, s.stor)
+		// killer will get to us eventually. The maps of tempstore are
+		// not touched: a seek that started during the flush can still
+		// be reading them.
+		s.mem = mergedMaps(tempstore.mem, s.mem)
+		s.stor = mergedMaps(tempstore.stor, s.stor)
 		s.ps = tempstore.ps
-		s.mem = tempstore.mem
-		s.stor = tempstore.stor
 	}
 	s.mut.Unlock()
 	return keys, err
+}
+
+// mergedMaps returns a new map with the contents of flushed overridden by the
+// contents of written, none of them is changed.
+func mergedMaps(flushed, written map[string][]byte) map[string][]byte {
+	res := maps.Clone(flushed)
+	maps.Copy(res, written)
+	return res
 }
 
 // Close implements Store interface, clears up memory and closes the lower layer
